@@ -377,7 +377,10 @@ func genRequest(t *rapid.T, c *Case) {
 	} else {
 		same[0] = 'e'
 	}
-	host := rapid.SampledFrom([]string{bh, string(same), string(same), "sub." + bh, "a.b." + bh, "evil" + bh, bh + ".evil.com", "x" + bh, strings.ToUpper(bh), "SUB." + bh, strings.ToLower(bh), "sub." + strings.ToLower(bh), "func.test"}).Draw(t, "oh")
+	host := rapid.SampledFrom([]string{bh, string(same), string(same), "sub." + bh, "a.b." + bh, "evil" + bh, bh + ".evil.com", "x" + bh, strings.ToUpper(bh), "SUB." + bh, strings.ToLower(bh), "sub." + strings.ToLower(bh), "func.test",
+		// hosts with an empty first label (a URL parser accepts them): still no sub-domain of the entry's host
+		// (".host" itself is left out: whether an empty label is a sub-domain is not something the statement settles)
+		".evil" + bh}).Draw(t, "oh")
 	c.Origin = scheme + "://" + host
 	if port != "" {
 		c.Origin += ":" + port
